@@ -176,6 +176,9 @@ class Ctx:
         self._hold_genbuild()
         p = module_path(mod)
         os.makedirs(os.path.dirname(p), exist_ok=True)
+        if not hasattr(self, "_gen_written"):
+            self._gen_written = {}
+        self._gen_written[mod] = text
         old = open(p).read() if os.path.exists(p) else None
         if old != text:
             with open(p, "w") as f:
@@ -301,9 +304,28 @@ class Ctx:
 
     def lean_run(self, main_file, input_text, timeout=1200):
         """Run a Lean driver (`lake env lean --run`) on stdin lines; returns output lines."""
-        with lake_lock():
-            pass  # make sure no build is running; drivers themselves may run concurrently
-        rc, out = sh(["lake", "env", "lean", "--run", main_file], cwd=LEAN, timeout=timeout, input=input_text)
+        # A driver imports the generated modules.  Another check running at the same time (possibly against ANOTHER tree, HITEN_REPO) may
+        # have regenerated and rebuilt them since this run's build: under the inter-process lock, restore what THIS run generated (and
+        # rebuild) if the files on disk differ, then run the driver before anybody else can touch them.
+        held = getattr(self, "_gb", None) is not None
+        self._hold_genbuild()
+        try:
+            stale = []
+            for mod, text in getattr(self, "_gen_written", {}).items():
+                p = module_path(mod)
+                cur = open(p).read() if os.path.exists(p) else None
+                if cur != text:
+                    with open(p, "w") as f:
+                        f.write(text)
+                    stale.append(mod)
+            with lake_lock():
+                if stale:
+                    self.log("generated modules were changed by a concurrent run; restored and rebuilt:", " ".join(stale))
+                    sh(["lake", "build"] + stale, cwd=LEAN, timeout=3000)
+            rc, out = sh(["lake", "env", "lean", "--run", main_file], cwd=LEAN, timeout=timeout, input=input_text)
+        finally:
+            if not held:
+                self.release_genbuild()
         if rc != 0:
             raise RuntimeError("lean driver failed rc=%d: %s" % (rc, out[-2000:]))
         return out.split("\n")
